@@ -49,10 +49,11 @@ class CompoundGammaDirichletPrior(CallableModel):
     def _call(self, *args, **kwargs) -> Tensor:
         taxa_count = self.tree_model.taxa_count
         x = self.tree_model.branch_lengths()
-        sum_x = x.sum(-1)
-        return (
-            torch.sum(x[..., :taxa_count].log(), -1) * (self.alpha.tensor - 1)
-            + torch.sum(x[..., taxa_count:].log(), -1)
+        sum_x = x.sum(-1, keepdim=True)
+        log_p = (
+            torch.sum(x[..., :taxa_count].log(), -1, keepdim=True)
+            * (self.alpha.tensor - 1)
+            + torch.sum(x[..., taxa_count:].log(), -1, keepdim=True)
             * (self.c.tensor * self.alpha.tensor - 1)
             - torch.lgamma(self.alpha.tensor) * taxa_count
             - torch.lgamma(self.c.tensor * self.alpha.tensor) * (taxa_count - 3)
@@ -70,9 +71,17 @@ class CompoundGammaDirichletPrior(CallableModel):
             - torch.lgamma(self.shape.tensor)
             - self.rate.tensor * sum_x
         )
+        # the hyperparameters have shape [..., 1]: one value per sample
+        return log_p.squeeze(-1) if log_p.dim() > 1 else log_p
 
     def _sample_shape(self) -> torch.Size:
-        return self.tree_model.sample_shape
+        return torch.broadcast_shapes(
+            self.tree_model.sample_shape,
+            *[
+                p.tensor.shape[:-1]
+                for p in (self.alpha, self.c, self.shape, self.rate)
+            ],
+        )
 
     @classmethod
     def from_json(
